@@ -3,6 +3,7 @@ package exppipe
 import (
 	"context"
 	"fmt"
+	"regexp"
 	"sort"
 	"strings"
 	"testing"
@@ -266,6 +267,51 @@ var c35Edits = []c35Edit{
 		})
 		return true
 	}},
+	{"introduce-import-cycle", func(s *c35State, r *vlib.RNG) bool {
+		// 2-4 live files are made to import each other in a ring; every added import statement gets its own
+		// repair entry, so that the cycle is later broken at a random member (first, middle or last of the ring)
+		var c []*gFile
+		for _, f := range s.g.Files {
+			if !s.deleted[f.Path] && f != s.g.schemaFile() {
+				c = append(c, f)
+			}
+		}
+		if len(c) < 2 {
+			return false
+		}
+		vlib.Shuffle(r, c)
+		k := r.Range(2, 4)
+		if k > len(c) {
+			k = len(c)
+		}
+		ring := c[:k]
+		added := 0
+		for i, f := range ring {
+			to := ring[(i+1)%k]
+			has := false
+			for _, im := range f.Imports {
+				if im.Path == to.Path {
+					has = true
+				}
+			}
+			if has {
+				continue
+			}
+			f, to := f, to
+			f.Imports = append(f.Imports, gImport{Path: to.Path})
+			added++
+			s.undo = append(s.undo, func() string {
+				for j := range f.Imports {
+					if f.Imports[j].Path == to.Path {
+						f.Imports = append(append([]gImport(nil), f.Imports[:j]...), f.Imports[j+1:]...)
+						break
+					}
+				}
+				return "remove-ring-import " + f.Path + " -> " + to.Path
+			})
+		}
+		return added > 0
+	}},
 	{"repair", func(s *c35State, r *vlib.RNG) bool {
 		if len(s.undo) == 0 {
 			return false
@@ -500,8 +546,62 @@ func c35Step(r *vlib.Run, id string, env *expEnv, par int, files map[string]stri
 	for k, v := range detail {
 		wit[k] = v
 	}
+	if cyc := importCycleIn(files); cyc != "" {
+		// which member of an import cycle reports it, and which import edge the descriptors drop, depends on the
+		// order of evaluation; a long-lived executor with memoized members starts elsewhere than a fresh one. The
+		// history goes on: once the cycle is repaired the two must agree again.
+		wit["import_cycle"] = cyc
+		r.Violation("incremental.differs-from-batch", "while the workspace has an import cycle: "+strings.SplitN(what, ":", 2)[0], id, wit)
+		return true
+	}
 	r.Violation("incremental.differs-from-batch", "after "+editKind(name)+": "+what, id, wit)
 	return false
+}
+
+var c35ImportRe = regexp.MustCompile(`(?m)^import\s+(?:public\s+|weak\s+)?"([^"]+)"\s*;`)
+
+// importCycleIn returns a cycle among the present files ("" if none), e.g. "a.proto -> b.proto -> a.proto".
+func importCycleIn(files map[string]string) string {
+	adj := map[string][]string{}
+	for p, t := range files {
+		for _, m := range c35ImportRe.FindAllStringSubmatch(t, -1) {
+			if _, ok := files[m[1]]; ok {
+				adj[p] = append(adj[p], m[1])
+			}
+		}
+		sort.Strings(adj[p])
+	}
+	state := map[string]int{}
+	var stack []string
+	var found string
+	var dfs func(p string)
+	dfs = func(p string) {
+		if found != "" {
+			return
+		}
+		state[p] = 1
+		stack = append(stack, p)
+		for _, q := range adj[p] {
+			switch state[q] {
+			case 0:
+				dfs(q)
+			case 1:
+				for i, x := range stack {
+					if x == q && found == "" {
+						found = strings.Join(append(append([]string{}, stack[i:]...), q), " -> ")
+					}
+				}
+			}
+		}
+		stack = stack[:len(stack)-1]
+		state[p] = 2
+	}
+	for _, p := range sortedKeys(files) {
+		if state[p] == 0 {
+			dfs(p)
+		}
+	}
+	return found
 }
 
 // Handwritten histories: each step is the complete file set.
@@ -575,7 +675,7 @@ func runC35Fixed(r *vlib.Run, h c35FixedHistory) {
 func TestC35(t *testing.T) {
 	r := vlib.Start(t, "C35")
 	defer r.Finish()
-	r.Extra("rule", "generated workspaces of 3–8 files in a mutable source.Map; histories of 3–10 edits drawn from {add field / change field type / add enum value in an imported file, rename a message importers use, break / remove / repair an import, delete an imported file, add a file that was imported but missing, touch without change, re-run without edit, introduce / remove a cross-file duplicate symbol, introduce / repair a syntax error or duplicate tag}. "+
+	r.Extra("rule", "generated workspaces of 3–8 files in a mutable source.Map; histories of 3–10 edits drawn from {add field / change field type / add enum value in an imported file, rename a message importers use, break / remove / repair an import, close a ring of 2-4 imports and later break it at a random member, delete an imported file, add a file that was imported but missing, touch without change, re-run without edit, introduce / remove a cross-file duplicate symbol, introduce / repair a syntax error or duplicate tag}. "+
 		"After every edit: evict queries.File{Opener,Path,ReportError:false|true} for the touched paths, re-run queries.Link on the long-lived executor+session, compare descriptors (fdp.DescriptorProtoBytes per requested file) and diagnostics (level, tag, message, file, primary span, notes, help, debug, every annotation, rendered text) with a fresh executor+session+opener on the same files. one evaluation = one compared step; distinct = distinct (file contents, step); non-trivial = the step touched at least one path and the batch result has a descriptor or a diagnostic")
 	r.Extra("assumptions", []string{
 		"fresh (batch) runs are NOT deterministic on this tree (C36 decides that): an order difference confined to groups of diagnostics that tie on Canonicalize's observable sort keys is not a mismatch, and any other mismatch is reported only if none of 200 further fresh executors at the same parallelism reproduces the incremental result (counted in classes 'mismatch-reproduced-by-another-fresh-run')",
